@@ -29,7 +29,9 @@ PROP = {'gen': [],
                'indexing, nearest) plugged in (C05_nopanic_with_reduction; f32 evaluation itself is not modelled and is covered by the '
                'exhaustive c20sweep run, which reports encoder panics). DEC mode numbers, KEYBOARD_LEVEL and '
                'grey-depth SGR codes are regenerated from the source each run and the theorems re-checked; the model is tied to the '
-               'code by a differential run (single commands and streams through one encoder object).',
+               'code by a differential run (single commands, and streams through ONE encoder object with deliberate repetitions of stateful '
+               'commands around Reset / alt-screen / keyboard-level / mode / face changes; for streams the FINAL TERMINAL STATE from clean and '
+               'dirty initial states is compared, C05_stream_one_encoder: one encoder object = concatenation of self-contained encodings).',
  'level_note': 'Trusted: Coq kernel + vm_compute; translate/enc_tables.py; hand-written model Encoder/Encode.v validated by the '
                'correspondence run; the VT/xterm interpreter Encoder/VT.v and the denotation Encoder/Denote.v ARE the specification '
                '(written from ECMA-48, the DEC parser state machine, xterm ctlseqs, the kitty keyboard protocol). Palette index / grey '
